@@ -134,7 +134,7 @@ def gen_grid(rng, T):
     return kind, g
 
 
-def gen_spec(rng, fmt):
+def gen_spec(rng, fmt, want=None):
     T = rng.randint(3, 12)
     F = rng.choice([2, 3, 4, 5, 6, 8])
     spec = dict(fmt=fmt, T=T, F=F, dt=rng.choice([1.0, 2.0, 4.0, 8.0]), off=rng.choice([0.0, 0.0, 0.5, 2.0]),
@@ -172,10 +172,71 @@ def gen_spec(rng, fmt):
         spec['bls_seed'] = rng.choice([None, rng.randrange(1000)])
         spec['nants'] = 2
         spec['rdb'] = rng.random() < 0.5          # through katdal.open of an .rdb file next to the chunk store
+        if want is not None or rng.random() < PRE_FRACTION:
+            gen_pre(rng, spec, want)
     # v4 synthesises its timestamps from first_timestamp and int_time: always a regular grid
     spec['grid_kind'], spec['grid'] = gen_grid(rng, T) if fmt != 'v4' else ('regular', [4 * i for i in range(T)])
     spec['sseed'] = rng.randrange(1 << 20)
     return spec
+
+
+PRE_FRACTION = 0.7
+
+
+def gen_range(rng, n, lo):
+    """A non-empty range a:b inside an axis of length n with at least `lo` elements (or all n, if fewer), and one of the
+    ways of writing it as slice(start, stop): normalised, None for an end that coincides with the axis end, negative."""
+    lo = min(lo, n)
+    a = rng.randint(0, n - lo)
+    b = rng.randint(a + lo, n)
+    if rng.random() < 0.25:
+        a = 0
+    if rng.random() < 0.25:
+        b = n
+    def write(v, end):
+        forms = [v]
+        if v == end:
+            forms.append(None)
+        if 0 < v < n:
+            forms.append(v - n)
+        return rng.choice(forms)
+    return (a, b), [write(a, 0), write(b, n)]
+
+
+def gen_pre(rng, spec, want=None):
+    """spec['T'], spec['F'] become the STORED numbers of dumps / channels (odd and even channel counts); spec['pre'] the
+    preselect dict as {'dumps': [start, stop] | absent, 'channels': [start, stop] | absent}; spec['sub'] the normalised
+    (a, b, c, d).  Ranges of all parities of first / last / first + last against odd and even stored channel counts."""
+    T = spec['T'] = rng.randint(4, 12)
+    F = spec['F'] = rng.choice([3, 4, 5, 6, 7, 8, 9])
+    keys = rng.choice(['both', 'both', 'both', 'channels', 'channels', 'dumps', 'none'])
+    if want is not None:
+        # stratum (parity of the stored channel count, parity of first + last of the preselected channel range)
+        F = spec['F'] = rng.choice([3, 5, 7, 9] if want[0] else [4, 6, 8])
+        keys = rng.choice(['both', 'channels'])
+    pre = {}
+    a, b, c, d = 0, T, 0, F
+    if keys in ('both', 'dumps'):
+        (a, b), pre['dumps'] = gen_range(rng, T, 3 if rng.random() < 0.8 else 1)
+    if keys in ('both', 'channels'):
+        for _ in range(50):
+            (c, d), pre['channels'] = gen_range(rng, F, 2 if rng.random() < 0.85 else 1)
+            if want is None or (c + d) % 2 == want[1]:
+                break
+    spec['pre'] = pre
+    spec['sub'] = [a, b, c, d]
+    # sensor events are placed per STORED dump
+    spec['acts'] = gen_events(rng, T, c02.STATES)
+    spec['targets'] = gen_events(rng, T, TARGETS)
+    spec['labels'] = gen_events(rng, T, c02.LABELS[1:])
+    spec['grid'] = [4 * i for i in range(T)]
+
+
+def pre_kwargs(pre):
+    return dict((k, slice(v[0], v[1])) for k, v in pre.items())
+
+
+V4_SYNC, V4_FIRST, V4_CENTRE, V4_CW = 1600000000.0, 123.0, 1284e6, 208984.375
 
 
 class C01Observation(c02.DataSetObservation):
@@ -184,7 +245,7 @@ class C01Observation(c02.DataSetObservation):
     wrote into the file.  select(timerange=...) of the model is thereby decided by the stored timestamps of the
     dumps, while katdal decides it with whatever its sensor cache holds."""
 
-    def __init__(self, d, ts):
+    def __init__(self, d, ts, freqs=None):
         self.d = d
         d.select()
         ts = np.asarray(ts, dtype=float)
@@ -199,9 +260,11 @@ class C01Observation(c02.DataSetObservation):
         self.kants = list(sub.ants)
         self.cps = [(str(a), str(b)) for a, b in sub.corr_products]
         self.B = len(self.cps)
-        self.F = int(spw.num_chans)
-        w = float(spw.channel_width) / 4
-        freqs = np.asarray(spw.channel_freqs, dtype=float)
+        # v4: the frequencies are GIVEN as well (documented frequencies of the stored channels the data set was opened
+        # on, from the telstate attributes), so select(freqrange=) of the model is decided by them
+        w = (float(spw.channel_width) if freqs is None else V4_CW) / 4
+        freqs = np.asarray(spw.channel_freqs if freqs is None else freqs, dtype=float)
+        self.F = len(freqs)
         self.fbase = float(freqs.min()) - 8 * w
         fz = (freqs - self.fbase) / w
         assert np.all(fz == np.round(fz)), 'channel frequencies are not on the quarter-channel grid'
@@ -285,6 +348,7 @@ class Fixture:
         self.tmp = v4.scratch_dir(tag)
         self.file = None
         self.dup = bool(spec.get('dup'))
+        self.pre, self.sub = None, None
         self.upper, self.centroid, self.segs = True, False, []
         self.cbf_dump = dt
         grid4 = spec.get('grid') or [4 * i for i in range(T)]
@@ -339,12 +403,16 @@ class Fixture:
                     ts['capture_block_id'] = cbid
                     ts['stream_name'] = stream
                 self.x = v4.build_v4(T=T, F=F, ants=ants, int_time=dt, tmp=os.path.join(self.tmp, 'v4'), bls_ordering=bls,
-                                     bandwidth=208984.375 * F,
+                                     bandwidth=V4_CW * F, center_freq=V4_CENTRE, sync_time=V4_SYNC,
+                                     first_timestamp=V4_FIRST,
                                      arrays=dict(correlator_data=self.st['vis'], flags=self.st['flags'],
                                                  weights=self.st['w_lo'], weights_channel=self.st['w_hi']),
                                      chunks=chunks, acts=tuple(spec['acts']), targets=tuple(spec['targets']),
-                                     labels=tuple(spec['labels']), open_kwargs=dict(time_offset=off),
-                                     extra_sensors=extra, telstate_hook=hook, construct=not spec.get('rdb'))
+                                     labels=tuple(spec['labels']), extra_sensors=extra, telstate_hook=hook,
+                                     construct=False)
+                # opened WITH the preselection (TelstateDataSource + VisibilityDataV4, or katdal.open of an .rdb)
+                self.pre = spec.get('pre')
+                pkw = dict(preselect=pre_kwargs(self.pre)) if self.pre is not None else {}
                 if spec.get('rdb'):
                     from katsdptelstate.rdb_writer import RDBWriter
                     rdir = os.path.join(self.tmp, 'v4', self.x.cbid)
@@ -352,10 +420,15 @@ class Fixture:
                     path = os.path.join(rdir, '%s_%s.rdb' % (self.x.cbid, self.x.stream))
                     with RDBWriter(path) as w:
                         w.save(self.x.telstate)
-                    self.d = katdal.open(path, time_offset=off)
+                    self.d = katdal.open(path, time_offset=off, **pkw)
                 else:
-                    self.d = self.x.d
-                self.stored_ts = [float(t) for t in self.d.source.timestamps]     # what the data source serves
+                    self.d = v4.reopen(self.x, dict(pkw), dict(pkw, time_offset=off))
+                # what is STORED, independently of the opened data set: telstate attributes of the two axes
+                a, b, c, dd = self.sub = spec.get('sub') or [0, T, 0, F]
+                self.stored_T, self.stored_F = T, F
+                T, F = b - a, dd - c
+                self.stored_ts = [V4_SYNC + V4_FIRST + k * dt + off for k in range(a, b)]
+                v4_freqs = [V4_CENTRE + (k - self.stored_F // 2) * V4_CW for k in range(c, dd)]
                 ant0 = 'm000'
             self.file = getattr(self.d, 'file', None)
             d = self.d
@@ -364,11 +437,14 @@ class Fixture:
             self.exp_ts = dict(v1=lambda: st_ts / 1000.0 + 0.5 * dt + off, v2=lambda: st_ts + 0.5 * dt + off,
                                v3=lambda: st_ts + (0.0 if self.centroid else 0.5 * self.cbf_dump) + off,
                                v4=lambda: st_ts)[fmt]()
-            self.ob = C01Observation(d, self.exp_ts)     # AssertionError: outside the vocabulary / grid of C02
+            # AssertionError: outside the vocabulary / grid of C02
+            self.ob = C01Observation(d, self.exp_ts, freqs=v4_freqs if fmt == 'v4' else None)
             self.T, self.F = T, F
             self.cps_full = [(str(a), str(b)) for a, b in d.subarrays[0].corr_products]
             self.B = len(self.cps_full)
-            self.chan_freqs = np.array(d.spectral_windows[0].channel_freqs)
+            # v1 / v2 / v3: the channel frequencies of the (single, whole) spectral window; v4: the documented
+            # frequencies of the stored channels the data set was opened on
+            self.chan_freqs = np.array(v4_freqs if fmt == 'v4' else d.spectral_windows[0].channel_freqs)
             d.select()
             self.sensors = ['Observation/scan_index', 'Observation/target']
             self.full = dict((nm, np.array(d.sensor[nm])) for nm in self.sensors)
@@ -386,6 +462,18 @@ class Fixture:
         return [FMT_ID[self.fmt], self.obs_wire, int(self.dup), int(self.upper), int(self.centroid), list(self.segs),
                 [q(s['dt']), q(self.cbf_dump), q(s['off'])], [q(t) for t in self.stored_ts],
                 [[i, wire_selarg(v)] for i, v in sorted(atoms.items())]]
+
+    def model_case(self, atoms, ops):
+        """The wire case of one history: wire_1 (v1 / v2 / v3: cfg + operations); wire_1002 (v4: what is STORED -- shape
+        and telstate attributes of the time and frequency axes --, the preselect slices as given, cfg, operations)."""
+        if self.fmt != 'v4':
+            return [1, [self.cfg_wire(atoms), ops]]
+        s = self.spec
+        timing = [q(V4_SYNC), q(V4_FIRST), q(s['dt']), q(s['off']), [], 0, 1]      # lite RDB (no CBF attributes)
+        store = [self.stored_T, self.stored_F, self.B, timing, q(V4_CENTRE), q(V4_CW * self.stored_F)]
+        pre = self.pre or {}
+        sl = [[c02._opt(v) for v in pre[k]] if k in pre else [] for k in ('dumps', 'channels')]
+        return [1002, [store, sl[0], sl[1], self.cfg_wire(atoms), ops]]
 
     def reset(self):
         d = self.ob.fresh()
@@ -411,11 +499,11 @@ def wire_selarg(v):
 SKIPPED = []
 
 
-def build_fixture(rng, fmt, tries=12):
+def build_fixture(rng, fmt, tries=12, want=None):
     """A fixture of the given format from rng; specs outside C02's vocabulary / frequency grid are skipped."""
     last = None
     for _ in range(tries):
-        spec = gen_spec(rng, fmt)
+        spec = gen_spec(rng, fmt, want)
         try:
             return Fixture(spec)
         except AssertionError as e:
@@ -658,6 +746,7 @@ def compare_history(ctx, fx, ops, log, mouts, hid, note=True):
     hkey = repr(sorted(hid.items()))
     descs = [e['desc'] for e in log]
     tsmap = None
+    ts_of_label = {}
     acq_conv = []
     sel_state = 'all'
 
@@ -691,13 +780,28 @@ def compare_history(ctx, fx, ops, log, mouts, hid, note=True):
                 ctx.disagree('fmt=%s;op=observe;what=raises' % fmt, case(n), e.get('exc'), 'ok',
                              'reading the public attributes / timestamps / sensors raised')
                 return
-            mshape, mdumps, mchans, mcps, (model_ts, mts), mlens, mfreq, msens, (mcache, meval, msynth) = mo
+            mshape, mdumps, mchans, mcps, (model_ts, mts), mlens, mfreq, msens, (mcache, meval, msynth) = mo[:9]
+            if fmt == 'v4':
+                # opened on a subset of what is stored (wire_1002): the spec side is the DOCUMENTED frequency / time of
+                # the stored channels c + channels[.] / stored dumps a + dumps[.], from the telstate attributes
+                (model_fq, spec_fq), (model_ts4, mts), (sdumps, schans) = mo[9:12]
+                if model_fq != spec_fq:
+                    ctx.disagree('fmt=v4;attr=freqs;what=model_vs_spec', case(n), model_fq[:4], spec_fq[:4],
+                                 'frequencies of the spectral window as built by the source (SpectralWindow.subrange of '
+                                 'the preselected channels) differ from the documented ones of the stored channels',
+                                 kind='tie')
+                if model_ts4 != model_ts:
+                    ctx.disagree('fmt=v4;attr=timestamps;what=model_inconsistent', case(n), model_ts4[:4], model_ts[:4],
+                                 'the two timestamp outputs of the model differ', kind='tie')
+                compare_stored_axes(ctx, fx, case(n), ob, [unq(p) for p in spec_fq], sdumps, schans, mchans, mdumps)
             if model_ts != mts:
                 ctx.disagree('fmt=%s;attr=timestamps;what=model_vs_spec' % fmt, case(n), model_ts[:4], mts[:4],
                              'timestamp conversion found in the source differs from the documented one', kind='tie')
             mts = [unq(p) for p in mts]
             if tsmap is None:
                 tsmap = mts            # conv_t of every stored timestamp (first observation: everything selected)
+                # label of a timestamps read -> time (v4: labels are STORED dump numbers)
+                ts_of_label = dict(zip(mo[11][0], mts)) if fmt == 'v4' else dict(enumerate(mts))
             checks = [('shape', ob['shape'], mshape), ('dumps', ob['dumps'], mdumps), ('channels', ob['channels'], mchans),
                       ('corr_products', ob['cps'], mcps), ('timestamps', ob['timestamps'], mts),
                       ('lens', ob['lens'], mlens), ('shape_vs_lens', ob['shape'], ob['lens'])]
@@ -802,7 +906,7 @@ def compare_history(ctx, fx, ops, log, mouts, hid, note=True):
             continue
         arr = arr.reshape(shape)
         if kind == 'timestamps':
-            exp = [tsmap[l] for l in labels]
+            exp = [ts_of_label[l] for l in labels]
             got = [Fraction(float(t)) for t in arr.ravel()]
             ok = got == exp
             exp_show = [float(t) for t in exp[:6]]
@@ -822,6 +926,34 @@ def compare_history(ctx, fx, ops, log, mouts, hid, note=True):
         if note:
             ctx.note_case((hkey, n), nontrivial=(e['stale'] or sel_state == 'part') and size > 0,
                           sample=dict(fmt=fmt, ops=descs[max(0, n - 3):n + 1], shape=shape, labels=labels[:8], conv=cv))
+
+
+def compare_stored_axes(ctx, fx, case, ob, spec_fq, sdumps, schans, mchans, mdumps):
+    """v4: the clause "freqs are the labels of those same channels" against what is STORED: d.freqs[j] must be the
+    documented frequency center_freq + (k - n_chans // 2) * bandwidth / n_chans of the stored channel
+    k = c + channels[j] whose samples the reads deliver (exact: all values are dyadic)."""
+    a, b, c, d = fx.sub
+    keys = '+'.join(sorted(fx.pre)) if fx.pre else ('empty' if fx.pre is not None else 'no')
+    if schans != [c + j for j in mchans] or sdumps != [a + i for i in mdumps]:
+        ctx.disagree('fmt=v4;attr=stored_coordinates;what=model_vs_harness', case, [sdumps, schans],
+                     [[a + i for i in mdumps], [c + j for j in mchans]],
+                     'stored coordinates named by the model differ from offset + data set coordinates', kind='tie')
+    got = [Fraction(float(x)) for x in np.asarray(ob['freqs'], dtype=float).ravel()]
+    if got != spec_fq:
+        cw = Fraction(V4_CW)
+        shift = set((g - e) / cw for g, e in zip(got, spec_fq)) if len(got) == len(spec_fq) and got else set()
+        if len(shift) == 1 and list(shift)[0].denominator == 1:
+            what = 'shifted_by_%+d_channels' % int(list(shift)[0])
+        else:
+            what = 'differs'
+        ctx.count('freqs_violation:F_%s;first+last_%s' % ('odd' if fx.stored_F % 2 else 'even', 'odd' if (c + d) % 2 else 'even'))
+        ctx.disagree('fmt=v4;attr=freqs;preselect=%s;what=%s' % (keys, what), case,
+                     [float(x) for x in got[:6]], [float(x) for x in spec_fq[:6]],
+                     'd.freqs are not the documented frequencies of the STORED channels %r that vis / flags / weights '
+                     'deliver (stored n_chans = %d, preselected channels %d:%d)' % (schans[:6], fx.stored_F, c, d),
+                     spec=[float(x) for x in spec_fq[:6]])
+    ctx.count('v4_axes:preselect=%s' % keys)
+    ctx.count('v4_axes:F_%s;first+last_%s' % ('odd' if fx.stored_F % 2 else 'even', 'odd' if (c + d) % 2 else 'even'))
 
 
 def compare_sensors(ctx, fx, case, ob, mts, tsmap, mdumps, mcache, meval, msynth):
@@ -906,7 +1038,7 @@ def type_of_exc(s):
 def run_one(ctx, fx, hseed, nops, hid, note=True, script=None):
     rng = random.Random(hseed)
     ops, log, atoms = run_impl(fx, rng, nops, script=script)
-    mcase = [1, [fx.cfg_wire(atoms), ops]]
+    mcase = fx.model_case(atoms, ops)
     mouts = ctx.model([mcase])[0]
     compare_history(ctx, fx, ops, log, mouts, hid, note=note)
     return mcase, mouts
@@ -992,7 +1124,8 @@ def fixture_plan(ctx):
     """(format, number of data sets, histories per data set)."""
     nf = ctx.scale(5, 30)
     nh = ctx.scale(24, 80)
-    return [(fmt, nf, nh) for fmt in FMTS]
+    # v4: more data sets (opened with / without a preselection), fewer histories on each
+    return [(fmt, nf, nh) if fmt != 'v4' else (fmt, ctx.scale(12, 48), ctx.scale(12, 50)) for fmt in FMTS]
 
 
 def run(ctx):
@@ -1009,8 +1142,15 @@ def run(ctx):
     for fmt, nf, nh in fixture_plan(ctx):
         for k in range(nf):
             fseed = rng.randrange(1 << 30)
-            fx = build_fixture(random.Random(fseed), fmt)
+            # v4: the first data sets of a run cover the four parity strata of (stored channel count, first + last of
+            # the preselected channel range); the others are drawn freely (with / without preselection, any keys)
+            want = [k & 1, (k >> 1) & 1] if fmt == 'v4' and k < 4 else None
+            fx = build_fixture(random.Random(fseed), fmt, want=want)
             ctx.count('datasets=' + fmt)
+            if fmt == 'v4':
+                ctx.count('datasets=v4:preselect=%s' % ('+'.join(sorted(fx.pre)) or 'empty' if fx.pre is not None else 'no'))
+                ctx.count('datasets=v4:stored_F_%s;first+last_%s' % ('odd' if fx.stored_F % 2 else 'even',
+                                                                     'odd' if (fx.sub[2] + fx.sub[3]) % 2 else 'even'))
             for key in ('dup', 'keepdims', 'lower', 'centroid'):
                 if fx.spec.get(key):
                     ctx.count('quirk=%s:%s' % (fmt, key))
@@ -1019,7 +1159,10 @@ def run(ctx):
                 for j in range(nh):
                     hseed = rng.randrange(1 << 30)
                     nops = random.Random(hseed).randint(8, 16)
-                    mcase, mouts = run_one(ctx, fx, hseed, nops, dict(fmt=fmt, fseed=fseed, hseed=hseed, nops=nops))
+                    hid = dict(fmt=fmt, fseed=fseed, hseed=hseed, nops=nops)
+                    if want is not None:
+                        hid['want'] = want
+                    mcase, mouts = run_one(ctx, fx, hseed, nops, hid)
                     if len(sample_cases) < 40 and j < 3:
                         sample_cases.append((mcase, mouts))
                     ctx.count('histories')
@@ -1050,7 +1193,7 @@ def replay(ctx, doc):
         return run_witness(ctx, hid['witness'])
     if 'witness' in case:
         return run_witness(ctx, case['witness'])
-    fx = build_fixture(random.Random(hid['fseed']), hid['fmt'])
+    fx = build_fixture(random.Random(hid['fseed']), hid['fmt'], want=hid.get('want'))
     try:
         run_one(ctx, fx, hid['hseed'], hid['nops'], hid)
     finally:
